@@ -188,7 +188,49 @@ HOSTILE = ['', '.', '..', 'u2', 'cur', 'new', 'tmp', 'a', 'b', 'INBOX', 'inbox',
            '.INBOX', '..u2', '日本', 'a\nb', '\r', '{1}', '"', "'", 'x' * 40]
 
 
+# compatibility / look-alike spellings of '.', '..', '/' and '\\' and of the
+# guard's forbidden parts: harmless as typed, dangerous if anything between the
+# validation and the path construction normalises, case-folds or strips them
+DOT_LIKE = ['\u2024', '\uff0e', '\ufe52', '\u3002', '\uff61', '.\u200b', '\u200b.', '.\u0307', '\u00b7']
+DOTDOT_LIKE = ['\u2025', '\u2024\u2024', '\uff0e\uff0e', '\ufe52\ufe52', '.\uff0e', '\u2024.', '.\u200b.',
+               '..\u200b', '\ufeff..', '.\u200d.', '..\u0301', '\u2026', '. .', '.. ', ' ..', '..\u00a0']
+SLASH_LIKE = ['\uff0f', '\u2215', '\u29f8', '\u2044', '\uff3c', '\\', '\u2216']
+RESERVED_LIKE = ['\uff43\uff55\uff52', 'CUR', 'Cur', '\uff4e\uff45\uff57', 'TMP', '\uff34\uff2d\uff30',
+                 '\uff29\uff2e\uff22\uff2f\uff38', '\u017fubscriptions', 'SUBSCRIPTIONS', 'Maildirfolder',
+                 'dovecot\u2010uidlist', 'DOVECOT-UIDLIST', 'cur\u200b', 'new.', 'tmp ']
+INBOX_EDGE = ['INBOX/', 'inbox/', 'Inbox/', 'INBOX//', '/INBOX', 'INBOX/.', 'INBOX/..', './INBOX', 'INBOX ',
+              ' INBOX', 'INBOX\u200b', '\uff29\uff2e\uff22\uff2f\uff38/', 'INBOX/\u200b', '//INBOX', 'inbox//']
+
+
+def lookalike_names() -> list:
+    out = []
+    for dd in DOTDOT_LIKE:
+        out += [dd, f'{dd}/u2', f'{dd}/u2/keep', f'a/{dd}/{dd}/u2', f'{dd}/{dd}/x', f'{dd}/pymap-etc-passwd',
+                f'a/{dd}', f'{dd}/u1/a']
+    for d in DOT_LIKE:
+        out += [d, f'{d}/a', f'a/{d}', d + d, f'{d}{d}/u2', f'{d}./u2', f'.{d}/u2']
+    for sl in SLASH_LIKE:
+        out += [f'..{sl}u2', f'a{sl}..{sl}..{sl}u2', f'{sl}', f'a{sl}b', f'..{sl}u2{sl}keep', f'{sl}etc{sl}passwd',
+                f'..{sl}', f'.{sl}..']
+    out += RESERVED_LIKE + [f'a/{x}' for x in RESERVED_LIKE[:6]]
+    return out
+
+
+LOOKALIKES = lookalike_names()
+
+
 def gen_hostile(rng, pool=None) -> str:
+    r = rng.random()
+    if r < 0.14:
+        return rng.choice(LOOKALIKES)
+    if r < 0.20:
+        # a look-alike component in a random position of an ordinary path
+        parts = rng.choices(['a', 'b', 'u2', '..', '.', 'keep'], k=rng.choice([1, 2, 3]))
+        parts.insert(rng.randrange(len(parts) + 1),
+                     rng.choice(DOT_LIKE + DOTDOT_LIKE + SLASH_LIKE + RESERVED_LIKE))
+        return '/'.join(parts)
+    if r < 0.25:
+        return rng.choice(INBOX_EDGE)
     r = rng.random()
     if pool and r < 0.25:
         return rng.choice(pool)
@@ -216,6 +258,26 @@ def wire_name_b64(s: str) -> bytes:
     return b'"&' + base64.b64encode(raw).rstrip(b'=').replace(b'/', b',') + b'-"'
 
 
+def fixed_programs() -> list:
+    """deterministic sweeps, run on both layouts on every tier: every spelling of
+    INBOX with a stray delimiter in every destructive/creating position, and
+    every look-alike of '..' aimed at the sibling user"""
+    progs = []
+    for e in INBOX_EDGE:
+        progs.append([('append', 'INBOX'), ('select', e), ('status', e), ('rename', e, 'zz'), ('delete', e),
+                      ('create', e), ('rename', 'INBOX', e), ('append', e), ('copy', e), ('delete', e),
+                      ('status', 'INBOX')])
+    chunk = []
+    for n in LOOKALIKES:
+        chunk += [('select', n), ('create', n), ('delete', n)]
+        if len(chunk) >= 30:
+            progs.append([('append', 'INBOX')] + chunk)
+            chunk = []
+    if chunk:
+        progs.append([('append', 'INBOX')] + chunk)
+    return progs
+
+
 def gen_cmds(rng, tame_share: float) -> list:
     pool = []
     cmds = [('append', 'INBOX')]
@@ -224,6 +286,8 @@ def gen_cmds(rng, tame_share: float) -> list:
         hostile = rng.random() > tame_share
 
         def nm():
+            if rng.random() < 0.06:
+                return rng.choice(INBOX_EDGE)
             if hostile:
                 return gen_hostile(rng, pool)
             return NS.gen_name(rng, pool, tame=1.0)
@@ -301,6 +365,7 @@ async def run_md_program(layout: str, cmds, spell_b64: bool):
         before = snapshot(base, root)
         steps = []
         k = 0
+        gone = False
         for cmd in cmds:
           k += 1
           tag = b'h%d' % k
@@ -320,10 +385,10 @@ async def run_md_program(layout: str, cmds, spell_b64: bool):
                 if main.closed:
                     main = await env.login(b'u1', b'pass')
                 conn = main
-                line = NS.wire_cmd(tag, cmd)
-                if spell_b64 and cmd[0] not in ('list', 'lsub', 'append'):
-                    for n in cmd[1:]:
-                        line = line.replace(U.wire_name(n), wire_name_b64(n), 1)
+                if spell_b64 and cmd[0] not in ('list', 'lsub'):
+                    line = NS.wire_cmd(tag, cmd, wire_name_b64)
+                else:
+                    line = NS.wire_cmd(tag, cmd)
             TRACER.take()
             TRACER.on = True
             try:
@@ -332,6 +397,10 @@ async def run_md_program(layout: str, cmds, spell_b64: bool):
                 TRACER.on = False
             trace = TRACER.take()
             cc = U.classify(resp, tag)
+            if not gone and not (os.path.isdir(root) and os.path.isdir(os.path.join(root, 'cur'))):
+                # the user's own INBOX directory has gone (reported once)
+                trace.append(('ROOT-GONE', 'w', root))
+                gone = True
             steps.append((cmd, cc, trace, resp, conn.exc))
             if cmd[0] == 'select' and not conn.closed:
                 await conn.send(b'zz LOGOUT\r\n')
@@ -348,6 +417,18 @@ async def run_md_program(layout: str, cmds, spell_b64: bool):
                 except Exception:
                     pass
         after = snapshot(base, root)
+        # the user can still log in and sees an INBOX
+        try:
+            fin = await env.login(b'u1', b'pass')
+            r1 = await fin.cmd(b'f1 LIST "" INBOX\r\n')
+            r2 = await fin.cmd(b'f2 STATUS INBOX (MESSAGES)\r\n')
+            inbox_ok = b'f1 OK' in r1 and b'INBOX' in r1 and b'f2 OK' in r2 \
+                and os.path.isdir(os.path.join(root, 'cur'))
+            await fin.send(b'f3 LOGOUT\r\n')
+        except (AssertionError, Exception):
+            inbox_ok = False
+        before['\x00inbox_ok'] = True
+        after['\x00inbox_ok'] = inbox_ok
         return root, steps, before, after, base
     finally:
         TRACER.sandbox = None
@@ -384,8 +465,11 @@ def monitor_md(ctx, layout, root, steps, before, after, base, spell_b64) -> None
                             dict(replay, step=i), {'kind': 'outside_' + ('write' if kind == 'w' else 'read'),
                                                    'layout': layout})
             elif kind == 'w' and np == root:
-                ctx.failure('delete_not_root', f'[{layout}] {cmd!r}: {fn}({raw!r}) changes the user directory itself',
+                ctx.failure('delete_not_root', f'[{layout}] {cmd!r}: {fn}({raw!r}) changes/removes the user directory itself',
                             dict(replay, step=i), {'kind': 'root_itself', 'layout': layout})
+    if not after.get('\x00inbox_ok', True):
+        ctx.failure('delete_not_root', f'[{layout}] after the program user u1 cannot log in / has no INBOX any more',
+                    replay, {'kind': 'inbox_gone', 'layout': layout})
     if before != after:
         diff = sorted(set(k for k in set(before) | set(after) if before.get(k) != after.get(k)))
         ctx.failure('isolation', f'[{layout}] files outside u1 changed: {diff[:5]!r}', replay,
@@ -400,6 +484,8 @@ def sec_maildir(ctx) -> None:
     for layout in ('++', 'fs'):
         for j in range(n_prog):
             plans.append((layout, gen_cmds(rng, 0.35 if j % 3 else 0.7), rng.random() < 0.25))
+        for k, cmds in enumerate(fixed_programs()):
+            plans.append((layout, cmds, k % 2 == 1))
 
     TRACER.install()
     try:
@@ -486,6 +572,20 @@ def sec_pure(ctx) -> None:
                                 {'name': name, 'layout': lay}, {'kind': 'get_path_escape', 'layout': lay})
             keep.append((lay, name))
         ctx.count(('pure', a, tuple(ps), p, name))
+    # every look-alike / INBOX-edge name, both layouts
+    for name in LOOKALIKES + INBOX_EDGE:
+        for cls, lay in ((DefaultLayout, 'LPlus'), (FilesystemLayout, 'LFs')):
+            try:
+                got = cls('/r/u1', Maildir).get_path(name, '/')
+            except NotSupportedError:
+                got = None
+            gc.append(T.pair(lay, U.enc_name('/r/u1'), U.enc_name(name),
+                             'None' if got is None else f'(Some {U.enc_name(got)})'))
+            if got is not None and not posixpath.normpath(got).startswith('/r/u1/'):
+                ctx.failure('confined', f'layout {lay} maps the name {name!r} to {got!r}',
+                            {'name': name, 'layout': lay}, {'kind': 'get_path_escape', 'layout': lay})
+            keep.append((lay, name))
+        ctx.count(('lookalike', name))
     # every name over {a . / &} up to a small length, both layouts
     import itertools
     for k in range(0, ctx.scale(5, 7)):
